@@ -1070,3 +1070,6 @@ V("c13-noise-private-generator", "C13", "fire", NO, "import numpy as np\n", "imp
 V("c08-extension-any-of-neighbours", "C08", "fire", UT, "            adj_neighbors = np.all([adj_i - {y} <= adj(y, P) for y in n_i])\n", "            adj_neighbors = not any(n_i) or np.all([adj_i - {y} <= adj(y, P) for y in n_i])\n", rule="TRUTHY.node-label", what="any() over node labels: a sink whose only neighbour is node 0 skips the adjacency condition")
 V("c08-silent-extension-no-neighbours", "C08", "silent", UT, "            adj_neighbors = np.all([adj_i - {y} <= adj(y, P) for y in n_i])\n", "            adj_neighbors = len(n_i) == 0 or np.all([adj_i - {y} <= adj(y, P) for y in n_i])\n", what="explicit emptiness shortcut")
 V("c15-isin-set", "C15", "fire", UT, "                if set(path) & S == set():\n", "                if not np.isin(path, S).any():\n", rule="API.isin-set", what="np.isin with a Python set is all False: every path `avoids` S", accept_inconclusive=True)
+MO_OLD = "            if rule_1(i, j, P) or rule_2(i, j, P) or rule_3(i, j, P) or rule_4(i, j, P):\n                # orient i -> j\n                oriented_edges = True\n"
+V("c10-orient-flag-overwritten", "C10", "fire", UT, MO_OLD, "            fwd = rule_1(i, j, P) or rule_2(i, j, P) or rule_3(i, j, P) or rule_4(i, j, P)\n            oriented_edges = fwd\n            if fwd:\n                # orient i -> j\n", rule="ORIENT.flag", what="the pass flag is overwritten per edge: an orientation made for an earlier edge is forgotten and the loop stops early", accept_inconclusive=True)
+V("c10-silent-orient-flag-or", "C10", "silent", UT, MO_OLD, "            if rule_1(i, j, P) or rule_2(i, j, P) or rule_3(i, j, P) or rule_4(i, j, P):\n                # orient i -> j\n                oriented_edges = oriented_edges or True\n", what="flag raised with `or`")
